@@ -1288,6 +1288,7 @@ type Enum struct {
 	desc       string
 	ref        string
 	val        int
+	valSet     bool
 	ifs        []*IfFeature
 	extensions []*Extension
 }
